@@ -493,6 +493,37 @@ class Program:
         self._tree_cache[key] = t
         return t
 
+    def _only_called_on_fresh_objects(self, f: FuncInfo) -> bool:
+        """Every call `<x>.<f.name>(...)` in the package has as receiver a local
+        that was bound, in the same function, to a constructor call (`net =
+        Network(...)`): the method only ever runs on objects nobody else holds
+        yet (a loader finishing the object it has just built)."""
+        n = 0
+        for g in self.functions():
+            gs = g.params[0] if g.params and g.kind in ("method", "setter",
+                                                        "getter") else None
+            for c in ast.walk(g.node):
+                if not (isinstance(c, ast.Call) and isinstance(c.func, ast.Attribute)
+                        and c.func.attr == f.name):
+                    continue
+                recv = c.func.value
+                if not isinstance(recv, ast.Name) or recv.id == gs:
+                    return False
+                fresh = False
+                for st in ast.walk(g.node):
+                    if isinstance(st, ast.Assign) and len(st.targets) == 1 and \
+                            isinstance(st.targets[0], ast.Name) and \
+                            st.targets[0].id == recv.id and isinstance(st.value, ast.Call):
+                        fn = st.value.func
+                        nm = fn.id if isinstance(fn, ast.Name) else \
+                            fn.attr if isinstance(fn, ast.Attribute) else ""
+                        if nm in self.classes or nm == "cls":
+                            fresh = True
+                if not fresh:
+                    return False
+                n += 1
+        return n >= 1
+
     def simplify_is_idempotent(self) -> bool:
         """True iff every `self.graph = ...` in the package is directly
         followed by `self.graph.simplify()` in the same block."""
@@ -505,6 +536,9 @@ class Program:
             if f.kind not in ("method", "setter", "getter"):
                 continue
             sn = f.params[0] if f.params else None
+            if f.name.startswith("_") and not f.name.startswith("__") and \
+                    self._only_called_on_fresh_objects(f):
+                continue        # the loader idiom, factored into a private helper
             for node in ast.walk(f.node):
                 for fld in ("body", "orelse", "finalbody"):
                     body = getattr(node, fld, None)
@@ -1108,6 +1142,26 @@ class _Builder:
                 else:
                     self.env[st.target.id] = saved
                 return seq(outs)
+            # for i, name in enumerate(<table>): the same with the position
+            if isinstance(st.iter, ast.Call) and isinstance(st.iter.func, ast.Name) and \
+                    st.iter.func.id == "enumerate" and len(st.iter.args) == 1 and \
+                    not st.iter.keywords and isinstance(st.target, ast.Tuple) and \
+                    len(st.target.elts) == 2 and not st.orelse and \
+                    all(isinstance(x, ast.Name) for x in st.target.elts):
+                vals = self.const_str_seq(st.iter.args[0])
+                if vals is not None and len(vals) <= 16:
+                    ti, tn = st.target.elts[0].id, st.target.elts[1].id
+                    outs = [self.expr(st.iter.args[0])]
+                    saved = {k: self.env.get(k, UNKNOWN) for k in (ti, tn)}
+                    for k_, v in enumerate(vals):
+                        self.env[ti], self.env[tn] = k_, v
+                        outs.append(self.block(st.body))
+                    for k, sv in saved.items():
+                        if sv is UNKNOWN:
+                            self.env.pop(k, None)
+                        else:
+                            self.env[k] = sv
+                    return seq(outs)
             it = self.expr(st.iter)
             self.bind_loop_target(st.target, st.iter)
             self.forget(assigned_names(st.body) | assigned_names([st.target]))
